@@ -1028,7 +1028,7 @@ def r10(R):
       'reads the last id only once it holds the commit lock (it goes stale '
       'while waiting for it), and an id supplied by the caller becomes the '
       'basis at begin, on the same path that adopts it (a finish that a '
-      'subclass overrides cannot be relied on)', props=['C17', 'C02'],
+      'subclass overrides cannot be relied on)', props=['C17', 'C02', 'C16'],
       min_instances=2)
 def r11(R):
     # (a) BaseStorage.tpc_begin: every path that sets _tid has set _ts
